@@ -63,6 +63,8 @@ def unit(pid, battery_name, args, prefix=(), max_depth=None):
             table = [[next(it) if z3.is_expr(c) else bool(c) for c in row] for row in cells]
             _concretize(ctx)
             orc = B.Oracle(objs, props, table)
+            # other live, used contexts (same labels / other labels) must not disturb this one
+            keep = B.decoys(concepts, objs, props, table, battery if n * m <= 16 else None)   # noqa: F841
             fails = battery(ctx, orc)
             out['queries'] += 1
             if fails:
